@@ -10,6 +10,7 @@ import (
 	"fmt"
 	"math"
 	"strings"
+	"time"
 
 	"github.com/influxdata/influxdb/v2/models"
 	"github.com/influxdata/influxdb/v2/storage/reads"
@@ -34,6 +35,7 @@ type jcase struct {
 	Zero   bool         `json:"zero_window"`
 	Every  int64        `json:"every"`
 	Off    int64        `json:"offset"`
+	Months int64        `json:"every_months,omitempty"` // > 0: calendar window of that many months (offset 0), sent as a Window message
 	WinMsg bool         `json:"use_window_msg"`
 	Sizes  []int        `json:"array_sizes"`
 	Shards []int        `json:"arrays_per_shard"`
@@ -63,6 +65,59 @@ func supported(ty, agg string) bool {
 		return true
 	}
 	return ty == "int" || ty == "uint" || ty == "float"
+}
+
+func floorDiv(a, b int64) int64 {
+	q := a / b
+	if a%b != 0 && (a < 0) != (b < 0) {
+		q--
+	}
+	return q
+}
+
+// genMonths: n strictly increasing timestamps spanning several calendar months (UTC), many
+// of them right at / next to month starts (incl. leap February, 1969/1970).
+func genMonths(w *vh.W, n int, ty string) wmock.Series {
+	r := w.Rng
+	s := wmock.Series{Ty: ty}
+	starts := [][2]int{{2021, 1}, {2020, 2}, {1969, 11}, {2023, 12}, {2100, 2}, {1970, 1}}
+	st := starts[r.IntN(len(starts))]
+	cur := time.Date(st[0], time.Month(st[1]), 1+r.IntN(28), r.IntN(24), 0, 0, r.IntN(3), time.UTC)
+	if r.IntN(3) == 0 {
+		cur = time.Date(st[0], time.Month(st[1]), 1, 0, 0, 0, 0, time.UTC).Add(time.Duration(r.IntN(3) - 1))
+	}
+	mode := r.IntN(3)
+	if ty != "float" && mode == 2 {
+		mode = 0
+	}
+	day := 24 * time.Hour
+	for i := 0; i < n; i++ {
+		s.T = append(s.T, cur.UnixNano())
+		s.V = append(s.V, genVal(w, ty, mode))
+		switch r.IntN(7) {
+		case 0:
+			cur = cur.Add(1)
+		case 1:
+			cur = cur.Add(day)
+		case 2:
+			cur = cur.Add(time.Duration(5+r.IntN(10)) * day)
+		case 3:
+			cur = cur.Add(time.Duration(28+r.IntN(40)) * day)
+		case 4: // last nanosecond of the month
+			y, m, _ := cur.Date()
+			nx := time.Date(y, m+1, 1, 0, 0, 0, 0, time.UTC).Add(-1)
+			if !nx.After(cur) {
+				nx = cur.Add(1)
+			}
+			cur = nx
+		case 5: // first instant of the next month
+			y, m, _ := cur.Date()
+			cur = time.Date(y, m+1, 1, 0, 0, 0, 0, time.UTC)
+		default:
+			cur = cur.Add(time.Duration(1+r.IntN(72)) * time.Hour)
+		}
+	}
+	return s
 }
 
 func wanted(sub []string, a string) bool {
@@ -203,7 +258,9 @@ func run(w *vh.W, c *jcase) {
 		if c.Zero {
 			every, off = math.MaxInt64, 0
 		}
-		if c.WinMsg {
+		if c.Months > 0 && !c.Zero {
+			req.Window = &datatypes.Window{Every: &datatypes.Duration{Months: c.Months}, Offset: &datatypes.Duration{}}
+		} else if c.WinMsg {
 			o := &datatypes.Duration{Nsecs: off}
 			if off < 0 {
 				o = &datatypes.Duration{Nsecs: -off, Negative: true}
@@ -294,12 +351,16 @@ func run(w *vh.W, c *jcase) {
 		outs = append(outs, "("+coq+", "+vh.List(as)+")")
 	}
 	ev := c.Every
-	if c.Zero {
+	if c.Zero || ev <= 0 {
 		ev = 1
 	}
+	months := c.Months
+	if c.Zero {
+		months = 0
+	}
 	tyc := map[string]string{"int": "TInt", "uint": "TUint", "float": "TFloat", "bool": "TBool", "str": "TStr"}[c.S.Ty]
-	t := fmt.Sprintf("{| c_ty := %s; c_zero := %s; c_every := %s; c_off := %s; c_chunks := %s; c_outs := %s |}",
-		tyc, vh.Bool(c.Zero), vh.Z(ev), vh.Z(c.Off), vh.List(chunks), vh.List(outs))
+	t := fmt.Sprintf("{| c_ty := %s; c_zero := %s; c_every := %s; c_off := %s; c_months := %s; c_chunks := %s; c_outs := %s |}",
+		tyc, vh.Bool(c.Zero), vh.Z(ev), vh.Z(c.Off), vh.Z(months), vh.List(chunks), vh.List(outs))
 	// distribution
 	nw := 0
 	if n > 0 {
@@ -308,12 +369,21 @@ func run(w *vh.W, c *jcase) {
 		} else {
 			last := int64(math.MinInt64)
 			for _, tt := range c.S.T {
-				d := tt - c.Off
-				q := d / c.Every
-				if d%c.Every != 0 && d < 0 {
+				if months > 0 {
+					y, mo, _ := time.Unix(0, tt).UTC().Date()
+					st := floorDiv(int64(y-1970)*12+int64(mo)-1, months)
+					if st != last {
+						nw++
+						last = st
+					}
+					continue
+				}
+				d := tt - ev*0 - c.Off
+				q := d / ev
+				if d%ev != 0 && d < 0 {
 					q--
 				}
-				st := (q+1)*c.Every + c.Off
+				st := (q+1)*ev + c.Off
 				if st != last {
 					nw++
 					last = st
@@ -341,6 +411,7 @@ func run(w *vh.W, c *jcase) {
 	w.Count("points", cls(n))
 	w.Count("arrays", cls(len(ranges)))
 	w.Count("zero_window", fmt.Sprint(c.Zero))
+	w.Count("calendar_months_window", fmt.Sprint(months))
 	w.Count("carry_over_reached(max output array = 1000)", fmt.Sprint(maxArr >= 1000))
 	w.Add(t, c, n >= 2 && (len(ranges) >= 2 || nw >= 2), "")
 }
@@ -457,7 +528,7 @@ func genSizes(w *vh.W, n int) []int {
 
 func main() {
 	w := vh.New("C20", "From Coq Require Import Floats.SpecFloat.\nFrom Verif Require Import Base.Prelude Model.C20.\nOpen Scope Z_scope.", "case", "check")
-	w.Rule = "a series of 0-3000 strictly increasing timestamps (negative, around window boundaries, dense / one per window / sparse) of one of the 5 field types (values incl. int64/uint64 extremes, 2^53+1, float specials, and for a third of the float series values with inexact, order-dependent sums {0.1,0.2,0.3,1e16,-1e16,1,1e-9,3.3,..}; half of the float series are dense inside wide windows so that whole arrays fall inside an already open window), split into arrays (all sizes 1..1500, all-1, exactly 999/1000/1001) dealt to 1-3 shard iterators; window every in {1,2,3,5,10,60,1000,1e9} ns and offset in {0,+-1,every-1,every,every+1,2every+3,-every,-every-1} (or the whole-series request every=MaxInt64), sent as WindowEvery/Offset or as a Window message; each supported aggregate (count/sum/min/max/mean/first/last) is run through reads.NewWindowAggregateResultSet and every array returned by Next() is recorded. Hand-picked cases: float sum/mean with array boundaries inside a window and inexact sums (windowed and whole-series); exactly 999/1000/1001/2001/1200 windows come first; ~3% of random cases have 1001-2500 points, mostly one per window (the tmp carry-over path); cases with >=100 points run a random 3-4 of the aggregates (term size), the others all supported ones. Non-trivial: >=2 points and (>=2 input arrays or >=2 windows). Distinct: distinct terms."
+	w.Rule = "a series of 0-3000 strictly increasing timestamps (negative, around window boundaries, dense / one per window / sparse) of one of the 5 field types (values incl. int64/uint64 extremes, 2^53+1, float specials, and for a third of the float series values with inexact, order-dependent sums {0.1,0.2,0.3,1e16,-1e16,1,1e-9,3.3,..}; half of the float series are dense inside wide windows so that whole arrays fall inside an already open window), split into arrays (all sizes 1..1500, all-1, exactly 999/1000/1001) dealt to 1-3 shard iterators; window every in {1,2,3,5,10,60,1000,1e9} ns (or, for 1 case in 7, a CALENDAR window of 1/2/3/12 months over timestamps spanning several months incl. month starts +-1ns, leap February, 1969/1970, sent as Window{Every{Months}}) and offset in {0,+-1,every-1,every,every+1,2every+3,-every,-every-1} (or the whole-series request every=MaxInt64), sent as WindowEvery/Offset or as a Window message; each supported aggregate (count/sum/min/max/mean/first/last) is run through reads.NewWindowAggregateResultSet and every array returned by Next() is recorded. Hand-picked cases: float sum/mean with array boundaries inside a window and inexact sums (windowed and whole-series); exactly 999/1000/1001/2001/1200 windows come first; ~2% of random cases have 1001-2200 points, mostly one per window (the tmp carry-over path); cases with >=100 points run a random 3-4 of the aggregates (term size), the others all supported ones. Non-trivial: >=2 points and (>=2 input arrays or >=2 windows). Distinct: distinct terms."
 	var rc jcase
 	if w.ReplayCase(&rc) {
 		run(w, &rc)
@@ -500,6 +571,26 @@ func main() {
 				V: fb(0.1, 0.2, 0.3, 0.7, 1e-9, 3.3, 1e16, 1, -1e16, 1.0/3.0, 0.1, 0.2, 0.3)}, Every: 5, Off: 1, Zero: zero, Sizes: []int{1, 2, 2, 3, 2, 3}, Shards: []int{2}, Aggs: sm})
 		}
 	}
+	{ // calendar-month windows (Window.Every.Months > 0): every aggregate, ascending cursors
+		ts := func(ds ...string) []int64 {
+			var o []int64
+			for _, d := range ds {
+				tt, err := time.Parse(time.RFC3339Nano, d)
+				if err != nil {
+					panic(err)
+				}
+				o = append(o, tt.UnixNano())
+			}
+			return o
+		}
+		T := ts("2020-01-31T23:59:59.999999999Z", "2020-02-01T00:00:00Z", "2020-02-29T12:00:00Z", "2020-03-01T00:00:00Z",
+			"2020-03-15T00:00:00Z", "2020-05-02T00:00:00Z", "2020-05-31T23:00:00Z", "2020-12-31T23:59:59Z", "2021-01-01T00:00:00Z")
+		run(w, &jcase{S: wmock.Series{Ty: "int", T: T, V: []uint64{1, 2, 3, 4, 5, 6, 7, 8, 9}}, Months: 1, Sizes: []int{2, 3, 1, 3}, Shards: []int{2}})
+		run(w, &jcase{S: wmock.Series{Ty: "int", T: T, V: []uint64{1, 2, 3, 4, 5, 6, 7, 8, 9}}, Months: 3, Sizes: []int{4}})
+		T2 := ts("1969-10-15T00:00:00Z", "1969-12-31T23:59:59.999999999Z", "1970-01-01T00:00:00Z", "1970-01-20T00:00:00Z", "1970-02-01T00:00:00Z", "1971-06-01T00:00:00Z")
+		run(w, &jcase{S: wmock.Series{Ty: "float", T: T2, V: []uint64{math.Float64bits(0.1), math.Float64bits(0.2), math.Float64bits(0.3), math.Float64bits(1e16), math.Float64bits(1), math.Float64bits(-1e16)}}, Months: 2, Sizes: []int{1, 2, 3}})
+		run(w, &jcase{S: wmock.Series{Ty: "str", T: T2, V: []uint64{0, 1, 2, 3, 4, 1}}, Months: 12, Sizes: []int{1}})
+	}
 	{ // no data at all: with and without a window
 		c := jcase{S: wmock.Series{Ty: "float"}, Every: 10, Zero: true}
 		run(w, &c)
@@ -520,8 +611,8 @@ func main() {
 		n, nag := 0, 0
 		gm := r.IntN(3)
 		switch k := r.IntN(100); {
-		case k < 3:
-			n = 1001 + r.IntN(1500)
+		case k < 2:
+			n = 1001 + r.IntN(1200)
 			if gm == 0 && every > 2 {
 				gm = 1
 			}
@@ -547,7 +638,15 @@ func main() {
 		} else {
 			ser = gen(w, n, every, off, gm, ty)
 		}
-		c := jcase{S: ser, Every: every, Off: off, WinMsg: r.IntN(2) == 0, Zero: r.IntN(8) == 0}
+		calMonths := int64(0)
+		if n < 100 && r.IntN(7) == 0 {
+			calMonths = []int64{1, 1, 2, 3, 12}[r.IntN(5)]
+			if n > 40 {
+				n = 40
+			}
+			ser = genMonths(w, n, ty)
+		}
+		c := jcase{Months: calMonths, S: ser, Every: every, Off: off, WinMsg: r.IntN(2) == 0, Zero: r.IntN(8) == 0}
 		c.Sizes = genSizes(w, n)
 		if denseFloat && n < 100 { // arrays of 1-4 points: boundaries inside the windows
 			c.Sizes = nil
